@@ -145,7 +145,7 @@ def to_coq(world, obs):
         return '(Some %s)' % g_list([g_name(x, world, mod) for x in names])
     return ('{| w := %s; o := %s; i_parent := %s; i_children := %s; i_ran := %d; i_fail := %s; i_err := %s; i_skip := %d; '
             'i_failed := %s; i_aborted := %s; i_summaries := %s; i_total := %s; i_injected := %s; i_lfail := %s; i_lerr := %s |}' % (
-                g_world(world, mod), g_opts(world, obs.get('import_errors', 0)),
+                g_world(world, mod), g_opts(world, len(world['broken']) if 'broken' in world else obs.get('import_errors', 0)),
                 g_list([e for e in pe if e]), g_list(ch), obs['ran'],
                 g_list([g_name(s, world, mod) for s in obs['failures']]),
                 g_list([g_name(s, world, mod) for s in obs['errors']]), obs['n_skipped'],
